@@ -112,8 +112,11 @@ func Run(c Case) core.Result {
 
 func offending(r *play.Raw) string {
 	body := r.Out
+	if len(body) > len(r.Out)-1 && len(r.Out) > 0 && (r.Out[0] == 'N' || r.Out[0] == 'S') && len(r.Msgs) == 0 {
+		return "first"
+	}
 	if r.ErrOffset < len(body) {
-		return string(body[r.ErrOffset])
+		return fmt.Sprintf("type-%02x", body[r.ErrOffset])
 	}
 	return "eof"
 }
